@@ -48,7 +48,7 @@ Init ==
   /\ agenda = {[t |-> 0, prio |-> URG, k |-> 1, e |-> 2]}
   /\ procs = << [pe |-> 1, tgt |-> 2, alive |-> TRUE, n |-> 0, catch |-> 0] >>
   /\ cur = NoCur /\ run = NoRun
-  /\ top = [mode |-> "top", uk |-> "none", ue |-> 0, n |-> 1]
+  /\ top = [mode |-> "top", uk |-> "none", ue |-> 0, ut |-> 0, n |-> 1]
   /\ log = <<>> /\ script = << <<Op("spawn", 0, 0, 0, Z)>>, <<>> >> /\ res = <<>> /\ ftab = IntTimes
 
 ProcStep == CanAct /\ \E o \in ProcOps : Do(o)
@@ -76,6 +76,16 @@ ProbeOnce == \A i, j \in 1..Len(log) : (i # j /\ log[i].k = "P" /\ log[j].k = "P
 DeliveredIsEventOutcome ==
   \A i \in 1..Len(log) : log[i].k = "R" =>
      \E e \in 1..Len(evs) : evs[e].st # "pending" /\ evs[e].ok = log[i].ok /\ evs[e].val = log[i].v
+\* C03: a run() call that returns normally has reached exactly its stop: run(until=t) ends with now = t, nothing
+\* stamped t in the log before the return (nothing due at t has taken effect), and -- AgendaNotPast -- nothing
+\* due before t is still waiting; run(until=event) ends in the step that processes that event, with its value;
+\* run() ends on an empty schedule
+RunReturnsAtItsStop ==
+  [][(top.mode = "run" /\ top'.mode = "top" /\ Len(log') = Len(log) + 1 /\ log'[Len(log')].k = "RET") =>
+        CASE top.uk = "time" -> /\ now' = top.ut /\ cur.e = top.ue
+                                /\ \A i \in 1..Len(log) : log[i].t < top.ut
+          [] top.uk = "ev"   -> cur.e = top.ue /\ log'[Len(log')].v = evs[top.ue].val
+          [] OTHER           -> agenda = {}]_kvars
 \* C04: interrupts never reach a process that has not started: the first R of every process is the init outcome
 FirstResumeIsInit ==
   \A p \in 1..Len(procs) :
